@@ -54,19 +54,26 @@ class C14(Prop):
     id = 'C14'
     module = 'c14'
     props_files = ['Props/C14.v']
-    extra_targets = ['States/Oracle.vo']
-    model_targets = ['States/Oracle.vo', 'AgentCause/Model.vo']
+    extra_targets = ['States/Oracle.vo', 'PilotLaunch/Oracle.vo']
+    model_targets = ['States/Oracle.vo', 'AgentCause/Model.vo', 'PilotLaunch/Oracle.vo']
+    launch_header = 'From RP Require Import PilotLaunch.Model PilotLaunch.Oracle.'
+
+    def header_for(self, case):
+        return self.launch_header if isinstance(case, dict) and case.get('kind') == 'launch' else self.header
     translators = ['states']
     header = ('From RP Require Import Gen.StatesTables States.Model States.Inst States.Oracle AgentCause.Model.')
     clauses = ['progression', 'final_state_consistent', 'unknown_ignored__or__cause_to_state',
                'no_unexpected_exception']
     corr_name = ('States.Model(p_run/p_progress) vs PilotManager._update_pilot/_pilot_state_progress/Pilot._update; '
-                 'AgentCause.Model vs Agent_0._check_lifetime/_ctrl_cancel_pilots/stop/finalize')
+                 'AgentCause.Model vs Agent_0._check_lifetime/_ctrl_cancel_pilots/stop/finalize; '
+                 'PilotLaunch.Model(work) vs PMGRLaunchingComponent.work')
     rule = ('every (current,target) pair of _pilot_state_progress (exhaustive); random notification sequences over '
             '1-3 pilots incl. unknown pids, duplicates, late non-final updates after final; all agent event '
             'sequences of length <= 3 (quick) / 4 (thorough) over {lifetime(no runtime/not exceeded/exceeded), cancel(mine/other), terminate} '
             'incl. service_info (startup failure or success, known/unknown service), heartbeat and unknown commands, all delivered through the real Agent_0.control_cb (exhaustive); non-trivial = pair with distinct states, sequence with >= 3 notifications incl. a final one, '
-            'event sequence containing a terminating event')
+            'event sequence containing a terminating event; bulks of 1-6 pilots over 1-3 resources x 1-2 access schemas '
+            'through the real PMGRLaunchingComponent.work with any subset of buckets whose launch raises and any '
+            'pilots canceled beforehand (all bulks of <= 3 pilots over 2 buckets x every failing subset: exhaustive)')
     trusted = [
         'translator translators/states.py (ast -> Gen/StatesTables.v; fail closed)',
         'correspondence harness harness/c14.py (mock set-up of PilotManager/Pilot/Agent_0 without __init__; '
@@ -106,6 +113,25 @@ class C14(Prop):
         for (s0, a, b), k in races:
             yield {'kind': 'race', 'pilots': [[1, s0]], 'a': [1, a], 'b': [1, b], 'k': k}
         import itertools
+        # the launching component: a bulk over several (resource, schema) buckets, some of which fail to launch
+        nl = 150 if tier == 'quick' else 2500
+        for _ in range(nl):
+            npil = rng.randint(1, 6)
+            nres, nsch = rng.randint(1, 3), rng.randint(1, 2)
+            pilots = [[u, rng.randint(1, nres), rng.randint(1, nsch)] for u in range(1, npil + 1)]
+            rng.shuffle(pilots)
+            keys = sorted(set((r, s) for _, r, s in pilots))
+            fails = [list(k) for k in keys if rng.random() < 0.4]
+            if rng.random() < 0.15:
+                fails.append([9, 9])                      # a bucket nobody is in
+            canc = [u for u, _, _ in pilots if rng.random() < 0.15] + ([77] if rng.random() < 0.1 else [])
+            yield {'kind': 'launch', 'pilots': pilots, 'fails': fails, 'cancelled': canc,
+                   'single': npil == 1 and rng.random() < 0.5}
+        for npil in (1, 2, 3):
+            for assign in itertools.product([(1, 1), (2, 1)], repeat=npil):
+                for fl in ([], [[1, 1]], [[2, 1]], [[1, 1], [2, 1]]):
+                    yield {'kind': 'launch', 'pilots': [[u + 1, r, s] for u, (r, s) in enumerate(assign)],
+                           'fails': fl, 'cancelled': [], 'single': False}
         evs = [['lifetime', False, True], ['lifetime', True, False], ['lifetime', True, True],
                ['cancel', True], ['cancel', False], ['terminate'],
                ['service', True, True], ['service', True, False], ['service', False, True],
@@ -158,8 +184,45 @@ class C14(Prop):
             pm._pilots[p._uid] = p
         return pm, seen, pseen, adv
 
+    def run_launch(self, case):
+        from radical.pilot.pmgr.launching.base import PMGRLaunchingComponent
+        import radical.pilot.states as rps
+        with mock.patch.object(PMGRLaunchingComponent, '__init__', return_value=None):
+            c = PMGRLaunchingComponent()
+        c._log = mock.MagicMock()
+        c._prof = mock.MagicMock()
+        c._uid = 'pmgr_launching.0000'
+        c._cancelled = ['pilot.%04d' % u for u in case['cancelled']]
+        fails = set((r, s) for r, s in case['fails'])
+        advs, started = [], []
+
+        def advance(things, state=None, publish=False, push=False, **kw):
+            things = things if isinstance(things, list) else [things]
+            advs.append([[int(t['uid'].split('.')[1]) for t in things], state])
+
+        def start(resource, schema, pilots):
+            key = (int(resource.split('.')[1]), int(schema.split('.')[1]))
+            started.append([key[0], key[1], [int(p['uid'].split('.')[1]) for p in pilots]])
+            if key in fails:
+                raise RuntimeError('injected: launch of %s/%s refused' % (resource, schema))
+        c.advance = advance
+        c._start_pilot_bulk = start
+        pilots = [{'uid': 'pilot.%04d' % u, 'type': 'pilot', 'state': rps.PMGR_LAUNCHING_PENDING,
+                   'description': {'resource': 'res.%d' % r, 'access_schema': 'sch.%d' % s}}
+                  for u, r, s in case['pilots']]
+        exc = None
+        try:
+            c.work(pilots[0] if case.get('single') else pilots)
+        except BaseException as e:                                                               # noqa
+            exc = type(e).__name__
+        names = {rps.CANCELED: 'LCanceled', rps.PMGR_LAUNCHING: 'LLaunching',
+                 rps.PMGR_ACTIVE_PENDING: 'LActivePending', rps.FAILED: 'LFailed'}
+        return {'advs': [[us, names.get(st, 'other:%s' % st)] for us, st in advs], 'started': started, 'exc': exc}
+
     def run_impl(self, case):
         import radical.pilot.states as rps
+        if case['kind'] == 'launch':
+            return self.run_launch(case)
         if case['kind'] == 'progress':
             try:
                 new, passed = rps._pilot_state_progress('pilot.0001', case['cur'], case['tgt'])
@@ -243,6 +306,14 @@ class C14(Prop):
         return {'signal': sig, 'advanced': advanced, 'bootstrap_ok': self.bootstrap_ok}
 
     def coq_row(self, case, obs):
+        if case['kind'] == 'launch':
+            bad = obs['exc'] is not None or any(st.startswith('other') for _, st in obs['advs'])
+            ps = L.lst(['(mkLP %s %s %s)' % (L.Z(u), L.Z(r), L.Z(s)) for u, r, s in case['pilots']])
+            ob = L.lst(['(%s, %s)' % (L.zlist(us), st) for us, st in obs['advs'] if not st.startswith('other')])
+            row = '(launch_row %s %s %s %s ++ [true; %s])' % (
+                L.zlist(case['cancelled']), L.lst([L.pair(L.Z(r), L.Z(s)) for r, s in case['fails']]), ps, ob,
+                L.boolean(obs['exc'] is None))
+            return '(false :: tl %s)' % row if bad else row
         if case['kind'] == 'progress':
             if 'exc' in obs:
                 o = '(inl %s)' % errname(obs['exc'])
@@ -275,6 +346,10 @@ class C14(Prop):
         return row if ok else '(false :: tl %s)' % row
 
     def model_show(self, case):
+        if case['kind'] == 'launch':
+            return 'work %s (fails_of %s) %s' % (
+                L.zlist(case['cancelled']), L.lst([L.pair(L.Z(r), L.Z(s)) for r, s in case['fails']]),
+                L.lst(['(mkLP %s %s %s)' % (L.Z(u), L.Z(r), L.Z(s)) for u, r, s in case['pilots']]))
         if case['kind'] == 'progress':
             return 'p_progress %s %s' % (P(case['cur']), P(case['tgt']))
         if case['kind'] == 'run':
@@ -285,6 +360,10 @@ class C14(Prop):
         return '(agent_final %s, spec_final %s)' % ((L.lst([ev(e) for e in case['events']]),) * 2)
 
     def nontrivial(self, case, obs):
+        if case['kind'] == 'launch':
+            keys = set((r, s) for _, r, s in case['pilots'])
+            hit = [k for k in keys if list(k) in case['fails']]
+            return len(keys) >= 2 and 0 < len(hit) < len(keys)
         if case['kind'] == 'progress':
             return case['cur'] != case['tgt']
         if case['kind'] == 'run':
@@ -295,6 +374,8 @@ class C14(Prop):
                    for e in case['events'])
 
     def signature(self, case, obs, clause):
+        if case['kind'] == 'launch':
+            return '%s:PMGRLaunchingComponent.work' % clause
         if case['kind'] == 'cause':
             return '%s:Agent_0.finalize' % clause
         if case['kind'] == 'run':
@@ -304,6 +385,15 @@ class C14(Prop):
         return '%s:progress:%s->%s' % (clause, case['cur'], case['tgt'])
 
     def shrink(self, case):
+        if case['kind'] == 'launch':
+            ps = case['pilots']
+            for i in range(len(ps)):
+                if len(ps) > 1:
+                    yield dict(case, pilots=ps[:i] + ps[i + 1:], single=False)
+            for i in range(len(case['fails'])):
+                yield dict(case, fails=case['fails'][:i] + case['fails'][i + 1:])
+            if case['cancelled']:
+                yield dict(case, cancelled=[])
         if case['kind'] == 'run':
             ns = case['notes']
             for i in range(len(ns)):
